@@ -55,6 +55,9 @@ def as_list(op, value):
 
 def case_facts(op, case, spelling):
     feats = [G.spec_features(s) for s in case["operands"]]
+    if not feats:
+        return {"op": op.name, "spelling": spelling, "max_ndim": 0, "min_ndim": 0, "first_size": 0,
+                "shapes": "", "view": False, "kinds": "", "kw": ",".join(sorted(case["kw"]))}
     return {
         "op": op.name, "spelling": spelling,
         "max_ndim": max(len(f["shape"]) for f in feats),
